@@ -125,7 +125,7 @@ def treeUpdateShallow (f : Nat) (m : Mem) (t u : Nat) (ig : List Val) : Res (Mem
   | .ok its => itemsToTreeShallow m its t ig
 
 /-- `table_to_tree(tree, pattern, rows, base = type(tree))` for the tree at address `t` and the items `its` its rows bind
-(`_table_to_tree.py:31-38`, repaired code, fix `4e01c0b`: `_tree_copy(tree)`, then one `_tree_setitem` per row; no duplicate check, no
+(`_table_to_tree.py:31-38`, repaired code, fix `5c393c7`: `_tree_copy(tree)`, then one `_tree_setitem` per row; no duplicate check, no
 ignore list).  `ValueError` for an item without a key ('node item too short'; the code raises it in the middle of the loop, after
 writes into the COPY only). -/
 def tableToTreeH (f : Nat) (m : Mem) (its : List (Path × Val)) (t : Nat) : Res (Mem × Nat) :=
